@@ -798,6 +798,16 @@ def run_case(case):
             except PoisonedTail as ex:
                 raise _Bad('poisoned-tail-reached', label + ': ' + str(ex))
             except Exception as ex:
+                if ex1:
+                    # the short run scanned its source to the end without
+                    # satisfying the consumers, so this one scans as well:
+                    # what the operators meet on the way (a short row next
+                    # to the end of the table under a context predicate)
+                    # depends on the data, not on laziness
+                    probes['short-source-exhausted'] = 1
+                    return outcome('trivial', digest=log.hexdigest(),
+                                   probes=probes, nontrivial=False,
+                                   extra={'group': group})
                 raise _Bad('raised-on-long-source',
                            '%s: %s: %s on the long source only'
                            % (label, type(ex).__name__, ex))
